@@ -342,7 +342,7 @@ fn iofault_spec() -> CheckSpec {
     CheckSpec {
         prop: "C08",
         level: "fault_enumeration",
-        rule: "one evaluation = one faulted run: a plan (4-40 ops quick, -150 thorough: puts, deletes, batches, gets after writes, flushes, compact_range, clean reopen) is first executed without faults to number its filesystem calls (all kinds: mkdir, list, open, read, len/size, create, write, rename, remove, lock), then re-executed with the same scheduler seed once per (call position, mode) with mode in {transient: that call fails, sticky: that call and all later ones fail, partial write: a failing write leaves a prefix behind (write calls only)}. Quick tier: <=30 positions per base run, stratified by (call kind, file class); thorough: all positions. Oracle during the run: every call returns Ok or Err (a panic is a violation); a get that returns Ok must return the value of the last Ok write or of a failed write issued after it. After disarming, closing and reopening: every key must be explainable by the Ok writes plus a subset of the failed writes, failed put-only batches all-or-nothing, and the reopen must succeed if anything was acknowledged. distinct_nontrivial = distinct coverage signatures (fault site = mode x call kind x file class, shapes).",
+        rule: "one evaluation = one faulted run: a plan (4-40 ops quick, -150 thorough: puts, deletes, batches, gets after writes, flushes, compact_range, clean reopen; 40% of the plans end with 2-3 concurrent writers on disjoint key sets so that group commits run under faults) is first executed without faults to number its filesystem calls (all kinds: mkdir, list, open, read, len/size, create, write, rename, remove, lock), then re-executed with the same scheduler seed once per (call position, mode) with mode in {transient: that call fails, sticky: that call and all later ones fail, partial write: a failing write leaves a prefix behind (write calls only)}. Quick tier: <=30 positions per base run, stratified by (call kind, file class); thorough: all positions. Oracle during the run: every call returns Ok or Err (a panic is a violation); a get that returns Ok must return the value of the last Ok write or of a failed write issued after it. After disarming, closing and reopening: every key must be explainable by the Ok writes plus a subset of the failed writes, failed put-only batches all-or-nothing, and the reopen must succeed if anything was acknowledged. distinct_nontrivial = distinct coverage signatures (fault site = mode x call kind x file class, shapes).",
         assumptions: vec![
             "one injected failure per run (single position; sticky = persistent from that position)".into(),
             "no short reads/writes without error, no EINTR: not injected because no listed property speaks about them".into(),
@@ -474,6 +474,35 @@ fn crash_case(run_seed: u64, tier: Tier, torn: bool) -> Case {
     let mut rng = Rng::new(run_seed);
     let size = if tier == Tier::Quick { BASE_QUICK } else { BASE_THOROUGH };
     let plan = gen_hist(&mut rng, Profile::Base, size);
+    let mut plan = plan;
+    let mut crng = rng.fork("clients");
+    if !torn && crng.chance(1, 4) {
+        // 2-3 concurrent writers on disjoint key sets after the single-client part
+        let nc = crng.range(2, 3) as usize;
+        while plan.keys.len() < nc {
+            plan.keys.push(format!("extra-{}", plan.keys.len()).into_bytes());
+        }
+        let mut tag = 200_000u32;
+        for c in 0..nc {
+            let mine: Vec<usize> = (0..plan.keys.len()).filter(|k| k % nc == c).collect();
+            let n = crng.range(3, 14) as usize;
+            let mut ops = vec![];
+            for _ in 0..n {
+                let k = *crng.pick(&mine);
+                tag += 1;
+                match crng.weighted(&[60, 12, 28]) {
+                    0 => ops.push(Op::Put { k, v: crate::plan::Val { tag, len: 12 + crng.below(300) as u32 } }),
+                    1 => ops.push(Op::Delete { k }),
+                    _ => {
+                        let k2 = *crng.pick(&mine);
+                        tag += 1;
+                        ops.push(Op::Batch { items: vec![(k, Some(crate::plan::Val { tag: tag - 1, len: 30 })), (k2, Some(crate::plan::Val { tag, len: 30 }))] });
+                    }
+                }
+            }
+            plan.clients.push(ops);
+        }
+    }
     let est = (plan.op_count() as u32) * 60;
     let mut srng = rng.fork("sched");
     // base runs mostly use low-preemption schedules: the fault space here is the crash point
@@ -495,7 +524,7 @@ fn crash_spec(prop: &'static str, torn: bool, rule: &'static str, probes: &'stat
         assumptions: vec![
             "crash model = process death between two filesystem operations: the durable state is exactly the effect of a prefix of the mutating-operation log (RainDB never calls fsync, and no listed property requires power-loss durability)".into(),
             "fault positions are enumerated per explored base execution (all prefixes in the thorough tier; a biased sample of 48 in the quick tier); base executions themselves are sampled by seed".into(),
-            "single writer in the base run, so at most one batch is in flight at a crash point".into(),
+            "the base run has one writer, plus in a quarter of the C02 base runs a final phase of 2-3 concurrent writers on disjoint key sets (several batches in flight at a crash point, possibly merged into one WAL record by group commit); every subset of the in-flight batches, each as a whole, is accepted".into(),
             "SimFs models POSIX file semantics as used by fs_disk.rs".into(),
         ],
         expected_probes: probes,
@@ -632,7 +661,7 @@ pub fn spec_for(prop: &str) -> Option<CheckSpec> {
         "C02" => crash_spec(
             "C02",
             false,
-            "one evaluation = one crash point: a prefix of the totally ordered log of mutating filesystem operations (create/truncate, write, rename, remove, mkdir) of a recorded base run (4-60 ops quick, -150 thorough: puts, deletes, batches, flushes, compact_range, clean reopen with new options; closed cleanly or left open). For each point the image is materialised and a recovery simulation runs: DB::open (reuse_log_files and sizes drawn per point) must succeed; full scan + get of every key must equal the model of all writes returned before the crash point, plus optionally - as a whole - the batch that was invoked but not returned; then 2-5 further writes, clean close, reopen (possibly flipped reuse_log_files) and the scan must equal model + new writes; with probability 1/6 the recovery run itself is crashed at a seeded prefix of its own log and checked recursively (depth <= 2). distinct_nontrivial = distinct coverage signatures of base runs (LSM shapes of recovered images, set of (operation kind, file class) pairs preceding the crash points).",
+            "one evaluation = one crash point: a prefix of the totally ordered log of mutating filesystem operations (create/truncate, write, rename, remove, mkdir) of a recorded base run (4-60 ops quick, -150 thorough: puts, deletes, batches, flushes, compact_range, clean reopen with new options; closed cleanly or left open; a quarter of the base runs end with 2-3 concurrent writers on disjoint keys). For each point the image is materialised and a recovery simulation runs: DB::open (reuse_log_files and sizes drawn per point) must succeed; full scan + get of every key must equal the model of all writes returned before the crash point, plus optionally - as a whole - the batch that was invoked but not returned; then 2-5 further writes, clean close, reopen (possibly flipped reuse_log_files) and the scan must equal model + new writes; with probability 1/6 the recovery run itself is crashed at a seeded prefix of its own log and checked recursively (depth <= 2). distinct_nontrivial = distinct coverage signatures of base runs (LSM shapes of recovered images, set of (operation kind, file class) pairs preceding the crash points).",
             &["crash@write:wal", "crash@write:table", "crash@write:manifest", "crash@rename:current", "crash@create:temp", "crash@remove:wal", "crash@remove:table", "crash_inside_recovery"],
         ),
         "C16" => crash_spec(
